@@ -119,6 +119,68 @@ def probsSvd (eng : Fock → D) (c : Cfg) (members : List Member) : Out :=
     let ps := postSelect c (normalize res)
     ⟨ps.1, phys, l0 * ps.2⟩
 
+/-! ### detector stage (`simulate_detectors`) — non-PNR detectors switch the herald mask off
+
+A detector is described by its *kernel* `photons ↦ distribution of the reported count` (the kernels of the
+interleaved pseudo-PNR detectors are C08's subject; here they are data).  `detectors[i] is None` is PNR. -/
+
+/-- detection kernel of one mode -/
+abbrev Kern := ℕ → List (ℕ × ℚ)
+
+inductive Det where
+  | none                                   -- no detector on the mode: perfect PNR
+  | pnr                                    -- `Detector.pnr()`
+  | thr                                    -- `Detector.threshold()`
+  | table (rows : List (List (ℕ × ℚ)))     -- any other detector, kernel row per photon number
+  deriving Repr
+
+/-- `det is None or det.type == DetectionType.PNR` -/
+def Det.isPnr : Det → Bool
+  | .none => true
+  | .pnr => true
+  | _ => false
+
+def Det.kern : Det → Kern
+  | .none => fun k => [(k, 1)]
+  | .pnr => fun k => [(k, 1)]
+  | .thr => fun k => [(min k 1, 1)]
+  | .table rows => fun k => rows.getD k []
+
+/-- `get_detection_type(detectors) == DetectionType.PNR` (an empty / absent list is PNR) -/
+def allPnr (ds : List Det) : Bool := ds.all Det.isPnr
+
+/-- the reported counts of one state, mode by mode (`list_tensor_product` of the per-mode `detect`) -/
+def detectState : List Kern → Fock → D
+  | K :: Ks, a :: t => (K a).flatMap fun jq => (detectState Ks t).map fun sp => (jq.1 :: sp.1, jq.2 * sp.2)
+  | _, _ => [([], 1)]
+
+/-- the detector stage applied to a distribution of PNR outcomes -/
+def detect (Ks : List Kern) (d : D) : D := d.flatMap fun tp => scale tp.2 (detectState Ks tp.1)
+
+/-- the specification with detectors: what is conditioned is the distribution of the *detected* pattern -/
+def detectedFull (eng : Fock → D) (m : ℕ) (ds : List Det) (members : List Member) : D :=
+  if ds.isEmpty then full eng m members else detect (ds.map Det.kern) (full eng m members)
+
+/-- `Simulator.probs_svd(svd, detectors)`: the mask is used iff every detector is PNR
+(`init_use_mask(is_pnr)`); otherwise the engine's full distribution goes through `simulate_detectors`, which
+applies the photon filter to the detected pattern, multiplies `physical_perf` by the passing fraction and
+renormalises, and `post_select_distribution` works on the detected patterns. -/
+def probsSvdDet (eng : Fock → D) (c : Cfg) (ds : List Det) (members : List Member) : Out :=
+  let c := { c with pnr := allPnr ds }
+  if allPnr ds then probsSvd eng c members
+  else
+    let phys := physInputs c members
+    let res := mix ((kept c members).map fun mb => (mb.w, memberDist eng c mb))
+    let acc := mass res
+    let l0 := if 0 < acc ∧ 0 < phys then acc / phys else acc
+    if acc = 0 then ⟨[], phys, 0⟩
+    else
+      let det := detect (ds.map Det.kern) (normalize res)
+      let pass := restrict (fun t => decide (minFilter c ≤ t.sum)) det
+      let phys2 := 1 - mass (restrict (fun t => !decide (minFilter c ≤ t.sum)) det)
+      let ps := postSelect c (normalize pass)
+      ⟨ps.1, phys * phys2, l0 * ps.2⟩
+
 /-! ### `Experiment.with_input(BasicState)` -/
 
 /-- the loop `for k in range(circuit_size): heralds[k] if k in heralds else input_state[idx++]`, driven by the
